@@ -610,6 +610,8 @@ class Script(object):
         for cmd in self.commands:
             if isinstance(cmd, int):
                 raw += bytes([cmd])
+            elif isinstance(cmd, list):
+                raw += data_pack(Script(cmd).serialize())
             else:
                 raw += data_pack(bytes(cmd))
         self._raw = raw
@@ -629,6 +631,8 @@ class Script(object):
         for cmd in self.commands:
             if isinstance(cmd, int):
                 clist.append(bytes([cmd]))
+            elif isinstance(cmd, list):
+                clist.append(Script(cmd).serialize())
             else:
                 clist.append(bytes(cmd))
         return clist
